@@ -1,6 +1,8 @@
 import MayVerif.Proof.Sync.RwLock.P_idle
 import MayVerif.Proof.Sync.RwLock.P_rlk
 import MayVerif.Proof.Sync.RwLock.P_rlp
+import MayVerif.Proof.Sync.RwLock.P_rcnt
+import MayVerif.Proof.Sync.RwLock.LK
 import MayVerif.Proof.Sync.RwLock.P_gld
 import MayVerif.Proof.Sync.RwLock.P_glk
 import MayVerif.Proof.Sync.RwLock.P_psn
@@ -9,7 +11,7 @@ import MayVerif.Proof.Sync.RwLock.P_rul
 namespace MayVerif.RwLock
 open MayVerif.Mutex (upd)
 
-theorem inv_step (s s' : St) (t : Nat) (e : Env) (h : Inv s) (hs : step s t e = some s') : Inv s' := by
+theorem inv_step (s s' : St) (t : Nat) (e : Env) (h : Inv s) (hk : LK s) (hs : step s t e = some s') : Inv s' := by
   obtain ⟨n, sh, pcs⟩ := s
   simp only [step, stepG] at hs
   split at hs
@@ -20,11 +22,17 @@ theorem inv_step (s s' : St) (t : Nat) (e : Env) (h : Inv s) (hs : step s t e = 
   next sh' pc' hts =>
   simp only [Option.some.injEq] at hs
   subst hs
-  generalize hpc : pcs t = pc at hts
+  have hkt := hk t hlt
+  simp only at hkt
+  generalize hpc : pcs t = pc at hts hkt
   cases pc with
   | idle => exact inv_idle n sh pcs t e hlt h hpc sh' pc' hts
   | rlk o p => exact inv_rlk n sh pcs t e o p hlt h hpc sh' pc' hts
   | rlp o => exact inv_rlp n sh pcs t e o hlt h hpc sh' pc' hts
+  | rld o => exact inv_rld n sh pcs t e o hlt h hpc sh' pc' hts
+  | rinc o first => exact inv_rinc n sh pcs t e o first hlt h hpc (by intro hf; subst hf; simpa [loc] using hkt) sh' pc' hts
+  | rdec => exact inv_rdec n sh pcs t e hlt h hpc sh' pc' hts
+  | rck last => exact inv_rck n sh pcs t e last hlt h hpc sh' pc' hts
   | gld o => exact inv_gld n sh pcs t e o hlt h hpc sh' pc' hts
   | glk o p => exact inv_glk n sh pcs t e o p hlt h hpc sh' pc' hts
   | glp o => simp [tstepG] at hts
@@ -34,15 +42,15 @@ theorem inv_step (s s' : St) (t : Nat) (e : Env) (h : Inv s) (hs : step s t e = 
   | wpo => exact inv_wpo n sh pcs t e hlt h hpc sh' pc' hts
   | isp => exact inv_isp n sh pcs t e hlt h hpc sh' pc' hts
 
-theorem inv_run (s : St) (sched : List (Nat × Env)) (h : Inv s) : Inv (run s sched) := by
+theorem inv_run (s : St) (sched : List (Nat × Env)) (h : Inv s) (hk : LK s) : Inv (run s sched) ∧ LK (run s sched) := by
   induction sched generalizing s with
-  | nil => simpa [run, runG]
+  | nil => simpa [run, runG] using ⟨h, hk⟩
   | cons te r ih =>
     obtain ⟨t, e⟩ := te
     simp only [run, runG]
     split
-    · next s' hs => exact ih _ (inv_step _ _ _ _ h hs)
-    · exact ih _ h
+    · next s' hs => exact ih _ (inv_step _ _ _ _ h hk hs) (lk_step _ _ _ _ h hk hs)
+    · exact ih _ h hk
 
 theorem run_n (s : St) (l : List (Nat × Env)) : (run s l).n = s.n := by
   induction l generalizing s with
@@ -65,6 +73,14 @@ theorem run_n (s : St) (l : List (Nat × Env)) : (run s l).n = s.n := by
 
 /-- all reachable states of the fixed model satisfy the invariant -/
 theorem inv_reach (n : Nat) (p : Bool) (sched : List (Nat × Env)) : Inv (run (init n p) sched) :=
-  inv_run _ sched (inv_init n p)
+  (inv_run _ sched (inv_init n p) (lk_init n p)).1
+
+theorem lk_reach (n : Nat) (p : Bool) (sched : List (Nat × Env)) : LK (run (init n p) sched) :=
+  (inv_run _ sched (inv_init n p) (lk_init n p)).2
+
+def Wr0 (s : St) : Prop := ∀ u, u < s.n → waitsGate (s.pcs u) = true → s.sh.r = 0
+
+theorem wr0_reach (n : Nat) (p : Bool) (sched : List (Nat × Env)) : Wr0 (run (init n p) sched) :=
+  fun u hu hw => waitsGate_loc _ _ hw (lk_reach n p sched u hu)
 
 end MayVerif.RwLock
